@@ -13,6 +13,11 @@ fn main() {
         // the fast (release-like) profile re-runs layer/layered_operations only; hooks are compared in the checked profile
         ctx.run_slice(Slice::new(format!("layer[{}]", spec.name()), u.count(), |i, loc| check::<B>(&u.get_open(i), !fast, loc)));
     }
+    // structured families of larger diagrams (fan-out/in, parallel, chains, cycles with tails, diamonds, ...)
+    let kmax = if quick { 6 } else { 8 };
+    let mut st = ohmc::props::structured::shapes(kmax);
+    st.extend(ohmc::props::structured::programs(kmax));
+    ctx.run_slice(Slice::new(format!("structured[sizes 1..{}: {} diagrams]", kmax, st.len()), st.len() as u64, |i, loc| check::<B>(&st[i as usize].1, !fast, loc)));
     let meta = Meta {
         rule: "every hypergraph of the listed universes (repeated nodes inside one operation, self-dependence, cycles with tails, zero-arity operations, dependency multiplicities up to 4-9), wrapped as an open hypergraph; layer() and layered_operations() are judged against the definition (any layering with the stated properties is accepted); with the verif-hooks feature converse, operation_adjacency, indegree and kahn are additionally compared with reference loops; run under the checked and the release-like profile".into(),
         bounds: "quick: <=3 nodes, <=3 operations, arity <=2; thorough adds 4 operations on <=2 nodes, 4 nodes with <=3 operations, 4-5 nodes with 4 unary operations, arity 3 with 2 operations".into(),
